@@ -442,7 +442,7 @@ impl<'t, 'c> Gen<'t, 'c> {
                     let u = self.t.pick(self.universe.len());
                     Val::Bytes(self.universe[u].0.clone())
                 } else {
-                    let len = [0usize, 1, 4, 28, 32, 40][self.t.pick(6)];
+                    let len = [0usize, 1, 4, 28, 32, 40, 64, 65, 100][self.t.pick(9)];
                     let s = self.t.pick(250) as u8;
                     Val::Bytes(fixed_bytes(s, len))
                 }
@@ -980,7 +980,14 @@ impl<'t, 'c> Gen<'t, 'c> {
             self.mark("local_use");
             return GExpr::Local(locals[self.t.pick(locals.len())]);
         }
-        let case = self.t.pick(tdef.cases.len());
+        let n_cases = tdef.cases.len();
+        let case = if n_cases > 8 && self.t.flag() {
+            // constructor-tag boundaries of the Plutus Data convention
+            let pool: Vec<usize> = [6usize, 7, 8, 126, 127, 128, 129, n_cases - 1].iter().copied().filter(|c| *c < n_cases).collect();
+            pool[self.t.pick(pool.len())]
+        } else {
+            self.t.pick(n_cases)
+        };
         if !tdef.record {
             self.mark("variant_constructor");
         } else {
@@ -1555,8 +1562,18 @@ impl<'t, 'c> Gen<'t, 'c> {
         }
     }
 
-    pub fn generate(mut self) -> Case {
+    pub fn pub_field_ty(&mut self, n_types_so_far: usize) -> Ty {
+        self.gen_field_ty(n_types_so_far, 0)
+    }
+
+    pub fn generate(self) -> Case {
+        self.generate_with(&mut |_| {})
+    }
+
+    /// `after_decls` may adjust the declarations before transactions are generated
+    pub fn generate_with(mut self, after_decls: &mut dyn FnMut(&mut Gen)) -> Case {
         self.gen_decls();
+        after_decls(&mut self);
         // party addresses and env values first: expressions may depend on their *values*
         let mainnet = self.t.chance(1, 3);
         for i in 0..self.prog.parties.len() {
